@@ -36,6 +36,10 @@ PROGRAMS = [
       "reporter_start_test", "reporter_start_suite",
       "add_reporter_result", "send_reporter_exception_notification",
       "send_reporter_skipped_notification", "send_reporter_completion_notification"]),
+    # the path of one test through the runner
+    ("runner", "src/runner.c",
+     ["run_the_test_code", "run_test_in_the_current_process", "run_test_suite", "run_single_test"]),
+    ("platform", "src/posix_runner_platform.c", ["in_child_process", "die_in", "stop"]),
     # the expectation queue of the mock engine
     ("mocks", "src/mocks.c",
      ["find_expectation", "remove_expectation_for", "have_always_expectation_for",
